@@ -18,7 +18,7 @@ ASSUMPTIONS = [
     "frame shift below the longest filter's one-sided support under both readings (from sample 0 and from the centre)",
     "numpy FFT path only; DFT size recomputed from the documented rule (max(frame_length, 2*rate/min bandwidth), power of two when padded) because the impulse response aliases into that buffer",
     "a column is accepted if it matches the reference for one alignment in {-1,0,+1} samples ('centred on' is ambiguous by one sample for an even span)",
-    "tolerance = 1e-7 of the (linear) column maximum + 1e-10 of the matrix maximum for the double-precision computation, plus the rounding of the stored value to the output dtype (2e-7 float32, 2e-3 float16, relative)",
+    "tolerance = 1e-7 of the (linear) column maximum + 1e-10 of the matrix maximum + 1e-13 of the coefficient's upper bound sum|w|(max|x| sum|h|)^p for the double-precision computation, plus the rounding of the stored value to the output dtype (2e-7 float32, 2e-3 float16, relative)",
 ]
 
 DT = {"f64": np.float64, "f32": np.float32, "f16": np.float16, "ld": np.longdouble}
@@ -107,7 +107,10 @@ def check_definition(case):
             ref = refs[c, delta]
             colmax = float(np.max(np.abs(ref)))
             # model error of the double-precision computation, in the linear domain
-            tol_lin = 1e-7 * colmax + 1e-10 * gmax + 1e-300
+            # (plus round-off measured against the largest value the coefficient could take for this
+            # signal: sum|w| * (max|x| * sum|h|)^p -- a column of 1e-19 is numerically zero, not data)
+            natural = float(np.sum(np.abs(window))) * (float(np.max(np.abs(xf))) * float(np.sum(np.abs(g)))) ** p if len(xf) else 0.0
+            tol_lin = 1e-7 * colmax + 1e-10 * gmax + 1e-13 * natural + 1e-300
             if spec["use_log"]:
                 ref_out = np.log(ref)
                 # the linear value is rounded to the output dtype before its log is taken and rounded again
